@@ -412,6 +412,54 @@ func init() {
 					}
 				}
 			}
+			// a store that keeps refusing DELETES for the whole request (reads and writes work): a session that failed re-validation is
+			// still dropped from the browser, and a sign-out still does not claim success
+			if redis {
+				for _, sc := range storeScenarios(u) {
+					if sc.name != "revalidate-fail" && sc.name != "signout" && sc.name != "unauth-signin-page" {
+						continue
+					}
+					rs, b := sc.setup(e)
+					e.redisFault = map[string]string{"DEL": "always"}
+					v, real := e.serveCase(rs, nil, "redisfault:DEL-always")
+					e.redisFault = nil
+					if v == nil {
+						continue
+					}
+					c.casen("c13d|"+sc.name, sc.name+" with every DEL refused => "+real)
+					c.count("c13:del-always")
+					input := map[string]interface{}{"scenario": sc.name, "fault": "every Redis DEL of the request is refused; GET/SET work", "response": real}
+					cleared := false
+					for _, ck := range v.Cookies {
+						if isSessionCookieNameH(e.opts.Cookie.Name, ck.Name) && (ck.MaxAge < 0 || ck.Value == "") {
+							cleared = true
+						}
+					}
+					switch sc.name {
+					case "revalidate-fail":
+						if len(v.Hits) > 0 {
+							c.violation("C12", "a stale session that could be neither refreshed nor re-validated was honoured (deletes refused by the store)", input)
+						} else if !cleared {
+							c.violation("C12", "re-validation of a stale session failed while the store refuses deletes: the response does not clear the session cookie, so the browser keeps presenting the session", input)
+							c.violation("C13", "re-validation failed while the store refuses deletes: the session cookie is not cleared", input)
+						}
+						// and the next request of that browser is still not honoured without re-validation
+						nb := b.clone()
+						if v.raw != nil {
+							nb.apply(v.raw)
+						}
+						if r2 := e.do(reqSpec{Target: "/app/again", Cookie: nb.cookieHeader()}); len(r2.Hits) > 0 {
+							c.violation("C12", "after a failed re-validation (store refusing deletes) the next request of the same browser was honoured without a successful refresh or re-validation", input)
+						}
+					case "signout":
+						if v.Status == 302 {
+							c.violation("C13", "sign-out reported success although the store refuses deletes", input)
+							c.violation("C11", "sign-out answered with the success redirect although the stored session could not be removed (deletes refused)", input)
+						}
+					}
+					e.mr.FlushAll()
+				}
+			}
 			// outage spanning the whole request: EVERY Redis command fails (restart answering LOADING, network outage),
 			// then the store comes back with its contents intact
 			if redis {
@@ -551,7 +599,7 @@ func init() {
 				e.close()
 			}
 		}
-		c.close([]string{"c13:faulted", "c13:no-fault", "serve:storefault:refresh", "serve:storedata:trunc5", "kind:notReady", "kind:errorPage", "redisfault:hit", "c13:sweep:bitflip", "c13:sweep:cut", "c13:outage"})
+		c.close([]string{"c13:faulted", "c13:no-fault", "serve:storefault:refresh", "serve:storedata:trunc5", "kind:notReady", "kind:errorPage", "redisfault:hit", "c13:sweep:bitflip", "c13:sweep:cut", "c13:outage", "c13:del-always"})
 	})
 
 	registerSuite("idpfaults", func(c *suiteCtx) {
@@ -589,6 +637,22 @@ func init() {
 			{"no-id-token", func(w http.ResponseWriter, r *http.Request) {
 				hj(w)
 				w.Write([]byte(`{"access_token":"at","token_type":"Bearer","expires_in":3600}`))
+			}},
+			{"id-token-number", func(w http.ResponseWriter, r *http.Request) {
+				hj(w)
+				w.Write([]byte(`{"access_token":"at","token_type":"Bearer","expires_in":3600,"refresh_token":"rt-x","id_token":12345}`))
+			}},
+			{"id-token-object", func(w http.ResponseWriter, r *http.Request) {
+				hj(w)
+				w.Write([]byte(`{"access_token":"at","token_type":"Bearer","expires_in":3600,"id_token":{"raw":"x"}}`))
+			}},
+			{"id-token-array", func(w http.ResponseWriter, r *http.Request) {
+				hj(w)
+				w.Write([]byte(`{"access_token":"at","token_type":"Bearer","expires_in":3600,"id_token":["a","b"]}`))
+			}},
+			{"id-token-bool", func(w http.ResponseWriter, r *http.Request) {
+				hj(w)
+				w.Write([]byte(`{"access_token":"at","token_type":"Bearer","expires_in":3600,"id_token":true}`))
 			}},
 			{"no-id-token-no-expiry", func(w http.ResponseWriter, r *http.Request) {
 				hj(w)
@@ -736,7 +800,7 @@ func init() {
 					check(fl.name, "none", rs, b, v, real, false)
 					for _, ep := range fl.endpoints {
 						for _, k := range kinds {
-							if ep == "/keys" && (k.name == "no-id-token" || k.name == "no-access-token" || k.name == "garbage-id-token" || k.name == "wrong-types" || k.name == "no-id-token-no-expiry" || k.name == "only-refresh-token") {
+							if ep == "/keys" && (k.name == "no-id-token" || k.name == "no-access-token" || k.name == "garbage-id-token" || k.name == "wrong-types" || k.name == "no-id-token-no-expiry" || k.name == "only-refresh-token" || strings.HasPrefix(k.name, "id-token-")) {
 								continue
 							}
 							rs, b := fl.setup()
@@ -755,7 +819,7 @@ func init() {
 							resetIDP(e.idp)
 							// a fault on /keys only matters when keys are not cached; on /userinfo only when consulted
 							must := ep == "/token"
-							if (fl.name == "refresh" || fl.name == "refresh-expired") && (k.name == "no-id-token" || k.name == "no-id-token-no-expiry" || k.name == "only-refresh-token") {
+							if (fl.name == "refresh" || fl.name == "refresh-expired") && (k.name == "no-id-token" || k.name == "no-id-token-no-expiry" || k.name == "only-refresh-token" || strings.HasPrefix(k.name, "id-token-")) {
 								must = false // a refresh response without id_token legitimately keeps the old identity
 							}
 							check(fl.name, ep+":"+k.name, rs, b, v, real, must)
@@ -801,7 +865,7 @@ func init() {
 				// (signed by another key under the known key id, so the verifier re-fetches the keys) x every kind of failure of
 				// the key endpoint: the session must not be kept
 				for _, k := range kinds {
-					if k.name == "no-id-token" || k.name == "no-access-token" || k.name == "garbage-id-token" || k.name == "wrong-types" || k.name == "no-id-token-no-expiry" || k.name == "only-refresh-token" {
+					if k.name == "no-id-token" || k.name == "no-access-token" || k.name == "garbage-id-token" || k.name == "wrong-types" || k.name == "no-id-token-no-expiry" || k.name == "only-refresh-token" || strings.HasPrefix(k.name, "id-token-") {
 						continue
 					}
 					k := k
